@@ -94,3 +94,114 @@ QUEUE = Contract(
     frame=[], props=["C06"],
     assumes=["extracted block: the statement that queues one grandchild for the next clone level"],
 )
+
+
+# ---------------------------------------------------------------- TestNode.validate: one net, the named vms (C06)
+def validate_objects_block(fn):
+    out, on = [], False
+    for s in fn.body:
+        if isinstance(s, ast.Assign) and ast.unparse(s.targets[0]) == "param_nets":
+            on = True
+        if isinstance(s, ast.For):
+            break
+        if on:
+            out.append(s)
+    return out
+
+
+NETS = "[o.suffix for o in self.objects if o.key == 'nets']"
+VMS = "{o.suffix for o in self.objects if o.key == 'vms'}"
+VALIDATE_OBJECTS = Contract(
+    target=f"{NODE}::TestNode.validate", name="TestNode.validate#objects", block=("objects", validate_objects_block),
+    params={"self": Ref("TestNode")},
+    requires=["forall(self.objects, lambda o: o is not None)", "len(self.objects) > 0"],
+    raises={"AssertionError": None, "ValueError": None, "IndexError": None, "ParamNotFound": None, "KeyError": None},
+    ensures=[
+        # a node that passes validation uses exactly one network object, first among its objects and named by its parameters
+        ("exactly_one_net_first_and_named", "len(attr_nets) == 1 and len(param_nets) == 1 and "
+                                            "self.objects[0].suffix == param_nets[0] and attr_nets[0] == param_nets[0]"),
+        ("nets_are_the_net_objects", "forall(STR, lambda s: (s in attr_nets) == exists(self.objects, lambda o: o.key == 'nets' and o.suffix == s))"),
+        # ... and exactly the vms its parameters name
+        ("vms_are_the_named_ones", f"forall(STR, lambda v: (v in {VMS}) == (v in self.params.objects('vms')))"),
+    ],
+    outputs={"attr_nets": Seq(STR), "param_nets": Seq(STR)},
+    frame=[], props=["C06"],
+    assumes=["extracted block: the net / vm checks of validate (before the loop over the setup nodes)"],
+)
+
+
+def validate_dependency_step(fn):
+    loops = [n for n in ast.walk(fn) if isinstance(n, ast.For) and isinstance(n.target, ast.Name) and n.target.id == "dependency_object"]
+    return loops[0].body if len(loops) == 1 else []
+
+
+PARENT_STATE = "old(dependency_object.object_typed_params(node.params).get('set_state', ''))"
+CHILD_STATE = "old(dependency_object.object_typed_params(self.params)['get_state'])"
+VALIDATE_DEPENDENCY = Contract(
+    target=f"{NODE}::TestNode.validate", name="TestNode.validate#dependency_step", block=("dependency_step", validate_dependency_step),
+    params={"self": Ref("TestNode"), "node": Ref("TestNode"), "dependency_object": Ref("TestObject")},
+    requires=["forall(dependency_object.composites, lambda c: c is not None)"],
+    raises={"ValueError": None, "ParamNotFound": None, "KeyError": None},
+    ensures=[
+        # a dependency that passes validation: the parent produces a state for this object, and exactly the required one
+        ("parent_produces_the_required_state", f"len({PARENT_STATE}) > 0 and ({CHILD_STATE} == '0root' or {CHILD_STATE} == {PARENT_STATE})"),
+    ],
+    frame=[], props=["C06", "C01"],
+    assumes=["extracted block: body of the loop over the objects of one dependency edge in validate"],
+)
+
+
+# ---------------------------------------------------------------- lazy expansion predicates (C09): is_unrolled
+from contracts.node_decisions import READY_OVERRIDES                                  # noqa: E402
+
+# call-site view of setless_form: a pure string-valued function of the node (its own contract is proved above)
+SETLESS_FORM_SITE = Contract(target=SETLESS_FORM.target, name="TestNode.setless_form[call site]", params={"self": Ref("TestNode")},
+                             raises={}, ensures=[], result_kind=STR, frame=[], props=[])
+
+NID = "(n.prefix + '-' + n.params['name'])"
+UNROLLED_FOR = (f"exists(keys_of(self._cleanup_nodes), lambda n: self.setless_form in {NID} and "
+                f"(worker is None or worker.id in {NID}))")
+IS_UNROLLED = Contract(
+    target=f"{NODE}::TestNode.is_unrolled",
+    params={"self": Ref("TestNode"), "worker": (Ref("TestWorker"), "nullable")},
+    requires=["wf_map(self._cleanup_nodes)", "forall(keys_of(self._cleanup_nodes), lambda n: n is not None and 'name' in n.params)",
+              "'name' in self.params", "implies(worker is not None, worker.net is not None)"],
+    overrides=dict(READY_OVERRIDES, **{"TestNode.setless_form": by_contract(SETLESS_FORM_SITE)}),
+    raises={"RuntimeError": "not self.is_shared_root() and len(self.objects) != 0", "ValueError": None},
+    loops={0: {"invariants": [
+        f"forall(range(0, _i), lambda j: let(keys_of(self._cleanup_nodes)[j], lambda n: not (self.setless_form in {NID} and "
+        f"(worker is None or worker.id in {NID}))))"],
+        "kinds": {"node": Ref("TestNode")}}},
+    ensures=[
+        ("shared_root_is_unrolled", "implies(self.is_shared_root(), result == True)"),
+        ("incompatible_worker_counts_as_unrolled", "implies(not self.is_shared_root() and worker is not None and "
+                                                   "worker.net.long_suffix in self.incompatible_workers, result == True)"),
+        ("unrolled_iff_expanded_for_the_worker", f"implies(not self.is_shared_root() and not (worker is not None and "
+                                                 f"worker.net.long_suffix in self.incompatible_workers) and "
+                                                 f"not (worker is None and len(self.incompatible_workers) > 0), result == {UNROLLED_FOR})"),
+    ],
+    result_kind=BOOL, frame=[], props=["C09"],
+)
+
+
+from contracts.node_decisions import IS_CLEANUP_READY                                  # noqa: E402
+from contracts.node_getters import GETTER_OVERRIDES, WF_NODE                            # noqa: E402
+
+DONE_BY = "(self.is_unrolled(pw) and self.is_cleanup_ready(pw) and len(pw.restrs) == 0)"
+SHOULD_PARSE = Contract(
+    target=f"{NODE}::TestNode.should_parse",
+    params={"self": Ref("TestNode"), "worker": (Ref("TestWorker"), "nullable")},
+    requires=WF_NODE + IS_UNROLLED.requires[:3] + IS_CLEANUP_READY.requires + [
+        "forall(self.shared_involved_workers, lambda w: w is not None and w.net is not None)",
+        "self.is_shared_root() or len(self.objects) == 0"],
+    overrides=dict(GETTER_OVERRIDES, **{"TestNode.is_unrolled": by_contract(IS_UNROLLED),
+                                        "TestNode.is_cleanup_ready": by_contract(IS_CLEANUP_READY)}),
+    stubs=IS_CLEANUP_READY.stubs,
+    raises={"ValueError": None},
+    loops={0: {"invariants": [f"forall(_seen, lambda pw: not {DONE_BY})"], "kinds": {"picked_worker": Ref("TestWorker")}}},
+    ensures=[
+        # a flat test is parsed again unless some unrestricted worker has already expanded and completed it
+        ("parse_unless_completed_by_an_unrestricted_worker", f"result == (not exists(self.shared_involved_workers, lambda pw: {DONE_BY}))"),
+    ],
+    result_kind=BOOL, frame=[], props=["C09"],
+)
